@@ -81,6 +81,9 @@ def run(ctx):
     kbig = (os.cpu_count() or 4) + 2
     cases.append({"fmt": "fb", "eps": 2, "plans": [[[w % 2, [1000 + 2 * w, 1001 + 2 * w] if w % 5 else [1000 + 2 * w]]] for w in range(kbig)],
                   "delays": [0] * kbig})
+    # one worker process comes up well before the others and is back at the task queue first: it runs several small writers in turn
+    cases.append({"fmt": ["npz", "fb", "tfrec"][ctx.seed % 3], "eps": 2, "plans": [[[0, [2000, 2001, 2002]], [1, [2003]]], [[0, [2010]]], [[1, []]], [[0, [2020, 2021]], [2, [2022]]]],
+                  "delays": [0, 0, 0, 0], "early_worker": True})
     nok, reqs, meta, distinct = 0, [], [], set()
     for i, c in enumerate(cases):
         rootp = ctx.scratch / f"c09p_{i}"; roots = ctx.scratch / f"c09s_{i}"
